@@ -35,8 +35,8 @@ else:
 AXIOMS_OK = ["ClassicalDedekindReals.sig_not_dec", "ClassicalDedekindReals.sig_forall_dec",
              "FunctionalExtensionality.functional_extensionality_dep", "Classical_Prop.classic"]
 
-COQ_CASES_QUICK, COQ_CASES_THOROUGH, COQ_SHARD = 6000, 120000, 380
-COQ_HEAVY_QUICK, COQ_HEAVY_THOROUGH = 48, 3000
+COQ_CASES_QUICK, COQ_CASES_THOROUGH, COQ_SHARD = 3200, 120000, 200
+COQ_HEAVY_QUICK, COQ_HEAVY_THOROUGH = 32, 3000
 
 TRUSTED = ["hand-written Gallina model of Decimal.Float64 / pow5 over Flocq 4 (BinarySingleNaN, binary_float 53 1024, mode_NE)",
            "Flocq's formalisation of IEEE-754 binary64 and the Coq Reals axioms it stands on",
